@@ -50,6 +50,7 @@ def run_colander(ctx, m, path, req, limit, out_arg, cwd, cli, in_arg):
 def run_case(ctx):
     src = ctx.src
     common.draw_env(ctx)
+    common.prelude(ctx)
     m = world.gen_world(src, scale=("hugebox", "manyboxes", "farcorner", "manyfields"))
     path, _ = common.materialise(ctx, m)
     req, names = draw_selection(src, m)
